@@ -1428,7 +1428,7 @@ func (g *Gen) runHash(nops int) {
 				a1, a2 := g.randAddr(), g.randAddr()
 				f := []string{"sse", fmt.Sprint(n), fmt.Sprint(1 + r.Intn(50)), fmt.Sprint(h), txh(), fmt.Sprintf("%s:%d,%s:%d", a1, 1+r.Intn(100), a2, 1+r.Intn(100))}
 				g.do("hash " + strings.Join(f, " "))
-				k := 1 + r.Intn(6)
+				k := 1 + r.Intn(7)
 				m := append([]string{}, f...)
 				switch k {
 				case 1:
@@ -1443,8 +1443,13 @@ func (g *Gen) runHash(nops int) {
 					m[5] = fmt.Sprintf("%s:%d,%s:%d", a1, 1+r.Intn(100), g.randAddr(), 1+r.Intn(100))
 				case 6:
 					m[5] = fmt.Sprintf("%s:%d,%s:%d", a1, 101+r.Intn(100), a2, 1+r.Intn(100))
+				case 7:
+					// the same members listed in another order: one claim identifier is right only if the event that is
+					// stored and applied is the same whoever reported first
+					parts := strings.Split(f[5], ",")
+					m[5] = parts[1] + "," + parts[0]
 				}
-				g.pair = [2]string{"sse", []string{"", "nonce", "setnonce", "height", "txhash", "members-address", "members-power"}[k]}
+				g.pair = [2]string{"sse", []string{"", "nonce", "setnonce", "height", "txhash", "members-address", "members-power", "members-order"}[k]}
 				g.do("hash " + strings.Join(m, " "))
 			} else {
 				// boundary shift on a minter chain: coin id digits move into the amount bytes
@@ -1609,7 +1614,15 @@ func (g *Gen) runKeys(nops int) {
 					sig = hex.EncodeToString(g.env.signCheckpoint(b, ext))
 					g.stats["keys:confirmation-with-real-signature"]++
 				}
-				g.do(fmt.Sprintf("confirm %s %s batch %s %d %s %s", chain, signer, b.ExternalTokenId, n, ext, sig))
+				tokenId := b.ExternalTokenId
+				if r.Intn(8) == 0 {
+					// the token contract spelled in another letter case: that names no outgoing transaction of the hub
+					tokenId = strings.ToLower(tokenId)
+					if r.Intn(2) == 0 {
+						tokenId = "0x" + strings.ToUpper(strings.TrimPrefix(b.ExternalTokenId, "0x"))
+					}
+				}
+				g.do(fmt.Sprintf("confirm %s %s batch %s %d %s %s", chain, signer, tokenId, n, ext, sig))
 			}
 		case x < 67:
 			v := g.vals[r.Intn(len(g.vals))]
